@@ -175,6 +175,18 @@ def writer_steps(t, style, ver):
     return steps
 
 
+def instrument(t, log):
+    """Installs the proxy and verifies that `with tree:` really goes through it."""
+    if not hasattr(t, "_lock") or not hasattr(t._lock, "acquire"):
+        return False
+    t._lock = LockProxy(t._lock, log)
+    n0 = len(log.events)
+    with t:
+        pass
+    ok = any(e[1] == "acquired" for e in log.events[n0:]) and any(e[1] == "released" for e in log.events[n0:])
+    return ok
+
+
 def labels_of(op, result):
     """Extract the list of node labels from a snapshot result."""
     if op in ("save_stream", "save_path"):
@@ -300,7 +312,9 @@ def schedule_A(case, res):
     op, style, phase, nest, nreaders = case["op"], case["style"], case["phase"], case["nest"], case["readers"]
     log = Log()
     t = build_tree(0)
-    t._lock = LockProxy(t._lock, log)
+    if not instrument(t, log):
+        res.inconc("lock instrumentation is not effective: `with tree:` does not use tree._lock.acquire()/release()")
+        return
     tmpdir = tempfile.mkdtemp(prefix="vmon-c18-")
     bad = []
     results = {}
@@ -404,7 +418,9 @@ def schedule_B(case, res):
     op, style, k = case["op"], case["style"], case["k"]
     log = Log()
     t = build_tree(0)
-    t._lock = LockProxy(t._lock, log)
+    if not instrument(t, log):
+        res.inconc("lock instrumentation is not effective: `with tree:` does not use tree._lock.acquire()/release()")
+        return
     tmpdir = tempfile.mkdtemp(prefix="vmon-c18-")
     bad = []
     hook = Hook(k)
@@ -676,8 +692,8 @@ def all_points(tier):
 
 def shards(tier, seed):
     out = [{"name": f"sched{i}", "kind": "sched", "i": i, "budget_s": 200 if tier == "quick" else 2400} for i in range(NSHARDS)]
-    ns = 4 if tier == "quick" else 12
-    out += [{"name": f"stress{i}", "kind": "stress", "i": i, "iters": 25 if tier == "quick" else 250, "budget_s": 200, "cov": False,
+    ns = 4 if tier == "quick" else 16
+    out += [{"name": f"stress{i}", "kind": "stress", "i": i, "iters": 40 if tier == "quick" else 700, "budget_s": 200, "cov": False,
              "timeout_s": 400} for i in range(ns)]
     return out
 
